@@ -151,6 +151,53 @@ def one_case(px, py, x, y, R, sample=False):
         R.violation('unify:second-call', f'matcher answered a second time: {wit}', wit)
     if sample:
         R.sample(dict(wit, reference_verdict=want))
+    # two matchers for the same pattern pair may be alive at once (a combinator that calls another one): what this matcher
+    # answered must not change when a later matcher for the same patterns answers something else
+    key = (wit['px'], wit['py'])
+    prev = _LIVE.get(key)
+    if prev is not None and (prev['x'], prev['y']) != (x, y):
+        R.count('two-live-matchers')
+        puni = prev['uni']
+        if prev['ok']:
+            for v, was in prev['bindings'].items():
+                try:
+                    now = refcat.to_ref(puni[v])
+                except Exception as e:
+                    now = repr(e)
+                if now != was:
+                    R.violation('unify:binding', f'binding {v!r} of a matcher changed from {refcat.ref_print(was)} to '
+                                f'{now if isinstance(now, str) else refcat.ref_print(now)} after another matcher for the same patterns was used',
+                                dict(prev['wit'], var=v, later=wit))
+                    break
+        else:
+            for v in vars_:
+                try:
+                    got = puni[v]
+                except Exception:
+                    continue
+                R.violation('unify:read-after-failure', f'binding {v!r} of a failed matcher became readable after another matcher for '
+                            f'the same patterns succeeded: {got!s}', dict(prev['wit'], var=v, later=wit))
+                break
+        try:
+            puni(refcat.from_ref(prev['x']), refcat.from_ref(prev['y']))
+        except Exception:
+            pass
+        else:
+            R.violation('unify:second-call', 'a matcher that had answered answered again after another matcher for the same '
+                        'patterns was created', dict(prev['wit'], later=wit))
+    snap = {}
+    if ok:
+        for v in vars_:
+            try:
+                snap[v] = refcat.to_ref(uni[v])
+            except Exception:
+                pass
+    _LIVE[key] = {'uni': uni, 'ok': bool(ok), 'bindings': snap, 'x': x, 'y': y, 'wit': wit}
+    if len(_LIVE) > 400:
+        _LIVE.pop(next(iter(_LIVE)))
+
+
+_LIVE = {}
 
 
 def gen_case(rng, pats, en_atoms, ja_atoms):
